@@ -26,7 +26,12 @@ LEVEL_TEXT = {
     'C11': 'Seeded search over request histories of 2-5 peers (incl. root) with colliding task hashes, foreign-UID adds, owner/setuid spoofing, cancels, listings, 33-90 concurrently open connections, hang-ups and restarts; every reply, listing, checkpoint and executor request is checked against a per-user map model.',
     'C12': 'Seeded search over executor-lifetime patterns relative to the recurrence period, exit-notification delays, batching of exits and expiries, several limited and unlimited tasks in one daemon, restarts; true concurrency is known to the simulator, so the bound is checked exactly at every spawn.',
 }
+LEVEL_TEXT['C05'] = ('Two seeded campaigns. (1) simd: every task field and COUNT/UNTIL/INTERVAL arithmetic through user file -> real echsq -> real echsd '
+                     '-> checkpoint -> crash/restart -> executor request, with k occurrences consumed in between, against independently computed expectations. '
+                     '(2) simp round trip (stage C05RT): calendars over the whole RRULE language x consumption prefixes k; consume k, write with the real serialiser, '
+                     're-read, compare field by field and occurrence by occurrence with an unwritten control copy. Exploration: a clean batch is evidence, not proof.')
 NOTE = {
+    'C05': 'Four recorded known findings (RDATE lists, several RRULEs, EXDATE/EXRULE, SHIFT are not faithfully serialisable): replayed from witnesses, printed as KNOWN-FINDING, their classes judged loosely (fields, crash-freeness, well-formedness) in the campaigns. Stage 2 uses the code itself as oracle and cannot see recurrence results that are wrong in the same way before and after a round trip.',
     'C04': 'Trusted: the libev model (conformance-checked against libev 4.33 at build time), the runner\'s arithmetic occurrence computation, the executor stub. Wall-clock steps not simulated.',
     'C11': 'Trusted: libev model, simulated passwd/peer-credential layer. Full 32-bit hash collisions between UIDs are excluded by assumption.',
     'C12': 'Trusted: libev model, scripted executor lifetimes (the real echsx --no-run path is C13\'s business).',
@@ -37,6 +42,9 @@ def main():
     checks = []
     for pid in sorted(cli.PROPS):
         cfg = cli.PROPS[pid]
+        if cfg.get('stage_of'):
+            # a further campaign of another property's check
+            continue
         checks.append({
             'property_id': pid,
             'quick_cmd': '/verif/check %s --tier quick' % pid,
@@ -62,7 +70,7 @@ def main():
          'kind_free_text': 'echsd.c #included unmodified; libev replaced by a virtual-time model; libc calls interposed with -Wl,--wrap; one forked process per daemon life'},
         {'name': 'simx', 'path': '/verif/sim/simx.c', 'serves_properties': [p for p in sorted(cli.PROPS) if cli.PROPS[p]['engine'] == 'simx'],
          'kind_free_text': 'echsx.c #included unmodified; scripted job actor on real pipes/files; virtual alarm clock'},
-        {'name': 'simp', 'path': '/verif/sim/simp.c', 'serves_properties': [p for p in sorted(cli.PROPS) if cli.PROPS[p]['engine'] == 'simp'],
+        {'name': 'simp', 'path': '/verif/sim/simp.c', 'serves_properties': sorted(set(cli.PROPS[p].get('stage_of', p) for p in cli.PROPS if cli.PROPS[p]['engine'] == 'simp')),
          'kind_free_text': 'libechse parser and streams under scripted chunk deliveries and call schedules'},
     ]
     m = {
